@@ -495,6 +495,14 @@ func (d *wdDown) DropDatabase(ctx context.Context, p *api.DropDatabaseParam) err
 	ts, rep, has := repInfo(p.GetBase())
 	c := &wdCall{Kind: "dropdb", RouteD: p.Database, DB: p.GetDbName(), Ts: ts, IsRep: rep, HasInf: has}
 	return d.do(ctx, c, true, func() error {
+		// Milvus refuses to drop a database that still holds collections (the drop of a collection, which travels on the
+		// other stream, may not have arrived yet): the operation fails and is delivered again, like after an injected rejection
+		for k := range d.colls {
+			if strings.HasPrefix(k, p.GetDbName()+"/") {
+				d.s.Stat("fault:db_not_empty")
+				return fmt.Errorf("database is not empty[database=%s]", p.GetDbName())
+			}
+		}
 		delete(d.dbs, p.GetDbName())
 		return nil
 	})
@@ -1036,7 +1044,7 @@ func (r *RigWD) streamLoop(st string) {
 		s.Park(nil, "dlv", fmt.Sprintf("%s#%03d:%s", st, e.Seq, e.Kind), nil)
 		dl := r.snapshot(e)
 		ctx := context.WithValue(context.Background(), evKey{}, e)
-		fb := s.statOf("fault:ddl_reject_before") + s.statOf("fault:ddl_reject_after")
+		fb := s.statOf("fault:ddl_reject_before") + s.statOf("fault:ddl_reject_after") + s.statOf("fault:db_not_empty")
 		var err error
 		if st == "api" {
 			err = r.w.HandleReplicateAPIEvent(ctx, wdAPIEvent(e))
@@ -1044,7 +1052,7 @@ func (r *RigWD) streamLoop(st string) {
 			_, err = r.w.HandleOpMessagePack(ctx, wdPack(e))
 		}
 		dl.err = err
-		dl.faulted = s.statOf("fault:ddl_reject_before")+s.statOf("fault:ddl_reject_after") > fb
+		dl.faulted = s.statOf("fault:ddl_reject_before")+s.statOf("fault:ddl_reject_after")+s.statOf("fault:db_not_empty") > fb
 		r.down.mu.Lock()
 		dl.to = len(r.down.calls)
 		r.down.mu.Unlock()
